@@ -32,7 +32,9 @@ CLAIMED = {
          'setters write the Z-form of the same instant. The provider laws are the tz database: checked on the '
          'implementation for a seeded sample of ids (quick) / all ~600 ids x both providers (thorough) at every transition '
          '-1s/0/+1s, in gaps and folds. Mixed-zone lists/periods and zoned absolute TRIGGER are decide witnesses '
-         '(recorded findings).',
+         '(recorded findings). Added: zoned_roundtrip_offset (the read-back value has the written zone id and the '
+         'instant wall - P.off z w, single value and one-item list), mixed_utc_zoned_witness (a UTC or floating item in '
+         'a list with a zoned item is read in the list zone).',
          'Trusted: Lean kernel; tools/extract.py (add names, datetime names); hand model of TZID derivation and '
          'vDatetime.to_ical/from_ical tied by correspondence; provider laws not provable (checked); the seconds<->calendar conversion is proved total and exact on '
          'years 1-9999 (Lemmas/Civil.lean: toDays_ofDays, ofSec_isSome_iff).',
@@ -111,7 +113,12 @@ CLAIMED = {
          'tz cache machine: a calendar whose VTIMEZONE precedes its uses and whose id is fresh gets its own definition; '
          'decide witnesses for the recorded findings (first-wins cache, definition after use, onsets closer than the '
          'jump). The zoneinfo path delegates to dateutil.tz.tzical (external): tied by correspondence and the oracle '
-         'only - partial, named.',
+         'only - partial, named. Clause theorems added: offsets_rounded_to_minute, sort_is_the_sorted_permutation, '
+         'onset_set_semantics (result depends on the SET of onsets only), local_sort_is_utc_sort, assertion_error_iff / '
+         'assertion_error_iff_daylight_only (the AssertionError exactly), dst_amount_spec (DST amount by cases: nearest '
+         'earlier STANDARD tuple, falsy zero searched again in the future), names_resolved (explicit TZNAME verbatim, '
+         'generated names pairwise distinct), cache_reparse_idempotent, reparse_position_independent, '
+         'reparse_differs_witness.',
          'Trusted: Lean kernel; hand models of _extract_offsets/get_transitions/lookup/cache tied by correspondence on '
          'generated VTIMEZONEs at each onset -1s/0/+1s under both providers; RRULE expansion is dateutil\'s.',
          'DESIGN.md 6/C12'),
@@ -122,7 +129,13 @@ CLAIMED = {
          'the generated component is well-formed; read by RFC onset rules it equals the zone at every instant of the '
          'window outside the gap between a transition and its generated onset (gen_faithful_partial); the onset shift '
          'and the short-excursion loss are proved as decide witnesses (recorded findings). Applicability is decided per '
-         'zone by a table check proved sound (chainOK_sound), not assumed.',
+         'zone by a table check proved sound (chainOK_sound), not assumed. Clause theorems added, for every zone: '
+         'gen_keys_unique (one sub-component per grouping key), gen_onsets_increasing(_zone) (DTSTART then RDATEs '
+         'strictly increasing), gen_first_observance (TZOFFSETFROM = TZOFFSETTO convention at the window start), '
+         'gen_onset_count / gen_onset_count_chain (onsets = 1 + offset changes in the window), regen_same_if_faithful '
+         '(from_tzinfo reads the zone only on [first, H]: generating again is the same from any zone equal there); the '
+         'regeneration clause at full strength on the UTC clock is regen_full, refuted by regen_shift_witness / '
+         'regen_full_false (finding tzgen-onset-shift).',
          'Trusted: Lean kernel; tools/extract.py (step list); hand model of from_tzinfo tied by correspondence against '
          'Timezone.from_tzid for every zone id x both providers x 3 windows (thorough) / 40 zones (quick); tz database '
          'content is the provider\'s.',
